@@ -12,6 +12,7 @@ import (
 	"sync"
 
 	"github.com/nuetzliches/hookaido/verif/l0"
+	"github.com/nuetzliches/hookaido/verif/l1"
 )
 
 func main() {
@@ -25,6 +26,10 @@ func main() {
 		err = l0Drive(os.Args[2:])
 	case "l0-run":
 		err = l0Run(os.Args[2:])
+	case "l0-conc":
+		err = l0Conc(os.Args[2:])
+	case "l1-conc":
+		err = l1Conc(os.Args[2:])
 	default:
 		err = dispatchExtra(os.Args[1], os.Args[2:])
 	}
@@ -257,5 +262,91 @@ func l0Run(args []string) error {
 		events += run.Events
 	}
 	fmt.Printf("{\"traces\":%d,\"events\":%d}\n", traces, events)
+	return nil
+}
+
+
+// l0-conc: free-running concurrent histories (call/return traces for linearization checking).
+func l0Conc(args []string) error {
+	fs := flag.NewFlagSet("l0-conc", flag.ExitOnError)
+	seed := fs.Int64("seed", 1, "seed")
+	n := fs.Int("n", 10, "histories per backend")
+	backends := fs.String("backends", "memory,sqlite", "backends")
+	gor := fs.Int("g", 4, "goroutines")
+	rounds := fs.Int("rounds", 12, "rounds per history")
+	opsPerG := fs.Int("ops", 2, "operations per goroutine and round")
+	out := fs.String("out", "conc", "output prefix (one file per history: <out>.<k>)")
+	scratch := fs.String("scratch", "", "scratch dir")
+	_ = fs.Parse(args)
+	sd := scratchDir(*scratch)
+	if *scratch == "" {
+		defer os.RemoveAll(sd)
+	}
+	r := rand.New(rand.NewSource(*seed))
+	k := 0
+	events := 0
+	for i := 0; i < *n; i++ {
+		for _, be := range strings.Split(*backends, ",") {
+			o := l0.ConcOpts{Backend: be, Seed: r.Int63(), Goroutines: *gor, Rounds: *rounds, OpsPerG: *opsPerG, IDs: 3 + r.Intn(3)}
+			switch r.Intn(4) {
+			case 0:
+				o.MaxDepth, o.Drop = 2+r.Intn(3), "reject"
+			case 1:
+				o.MaxDepth, o.Drop = 2+r.Intn(3), "drop_oldest"
+			}
+			if r.Intn(4) == 0 {
+				o.DelivAge = 1000000
+			}
+			f, err := os.Create(fmt.Sprintf("%s.%d", *out, k))
+			if err != nil {
+				return err
+			}
+			nl, err := l0.RunConc(f, sd, fmt.Sprintf("conc-s%d-%04d/%s", *seed, i, be), o)
+			f.Close()
+			if err != nil {
+				return err
+			}
+			events += nl
+			k++
+		}
+	}
+	fmt.Printf("{\"traces\":%d,\"events\":%d}\n", k, events)
+	return nil
+}
+
+
+// l1-conc: concurrent histories through the production wiring (pull HTTP, worker gRPC, ingress, push dispatcher).
+func l1Conc(args []string) error {
+	fs := flag.NewFlagSet("l1-conc", flag.ExitOnError)
+	seed := fs.Int64("seed", 1, "seed")
+	n := fs.Int("n", 4, "histories per backend")
+	backends := fs.String("backends", "memory,sqlite", "backends")
+	rounds := fs.Int("rounds", 10, "rounds")
+	clients := fs.Int("clients", 4, "clients per round")
+	out := fs.String("out", "l1conc", "output prefix")
+	scratch := fs.String("scratch", "", "scratch dir")
+	_ = fs.Parse(args)
+	sd := scratchDir(*scratch)
+	if *scratch == "" {
+		defer os.RemoveAll(sd)
+	}
+	r := rand.New(rand.NewSource(*seed))
+	k, events := 0, 0
+	for i := 0; i < *n; i++ {
+		for _, be := range strings.Split(*backends, ",") {
+			f, err := os.Create(fmt.Sprintf("%s.%d", *out, k))
+			if err != nil {
+				return err
+			}
+			nl, err := l1.RunConc(f, sd, fmt.Sprintf("l1conc-s%d-%04d/%s", *seed, i, be), l1.ConcOpts{Backend: be, Seed: r.Int63(), Rounds: *rounds, Clients: *clients})
+			f.Close()
+			if err != nil {
+				return err
+			}
+			events += nl
+			k++
+		}
+	}
+	fmt.Printf("{\"traces\":%d,\"events\":%d}\n", k, events)
 	return nil
 }
